@@ -50,7 +50,7 @@ def config(ctx):
                    Plan("q1i3nt", "S_q1", 25, workers=3, nproc=2, max_inst=3, max_pw=0, pw_on=False, stray=1, timeout_on=False)],
             long_mc=[("x1", [1], dict(max_serial=4, workers=2)),
                      ("x1rt", [1], dict(max_serial=4, real_time=True, workers=2))],
-            long_gen=dict(jvms=3, num=2, depth=2500, ids=16), very_long=None,
+            long_gen=dict(jvms=3, num=2, depth=2500, ids=16), long_gen_nt=dict(jvms=1, num=2, depth=1500), very_long=None,
             rt=dict(seconds=1, from_plan=48, long_num=16, long_depth=50, long_ids=8),
             per_proc=40, nproc=3)
     return dict(
@@ -63,7 +63,8 @@ def config(ctx):
                  ("x2rt", [1, 2], dict(max_serial=3, real_time=True, workers=16)),
                  ("x3", [1, 2, 3], dict(max_serial=2, workers=16)),
                  ("x3rt", [1, 2, 3], dict(max_serial=2, real_time=True, workers=16))],
-        long_gen=dict(jvms=8, num=8, depth=5000, ids=16), very_long=dict(jvms=4, depth=40000, ids=24),
+        long_gen=dict(jvms=8, num=8, depth=5000, ids=16), long_gen_nt=dict(jvms=2, num=8, depth=5000),
+        very_long=dict(jvms=4, depth=40000, ids=24),
         rt=dict(seconds=2, from_plan=400, long_num=120, long_depth=110, long_ids=12, also_seconds=1),
         per_proc=40, nproc=12)
 
@@ -122,6 +123,9 @@ def run(ctx):
     lg = cfg["long_gen"]
     f_gen = [pool.submit(C.long_generate, ctx, "g%d" % j, list(range(1, lg["ids"] + 1)), lg["depth"], lg["num"],
                          seed=ctx.seed * 100 + j) for j in range(lg["jvms"])]
+    nt = cfg.get("long_gen_nt")
+    f_gen_nt = [pool.submit(C.long_generate, ctx, "n%d" % j, list(range(1, lg["ids"] + 1)), nt["depth"], nt["num"],
+                            timeout_on=False, seed=ctx.seed * 100 + 30 + j) for j in range(nt["jvms"])] if nt else []
     if cfg["very_long"]:
         vl = cfg["very_long"]
         f_gen += [pool.submit(C.long_generate, ctx, "v%d" % j, list(range(1, vl["ids"] + 1)), vl["depth"], 1,
@@ -186,35 +190,49 @@ def run(ctx):
         ctx.note("BookLong/%s: ids %s, %s: %d states %d transitions, ledger invariants hold (%.0fs)"
                  % (name, ids, {k: v for k, v in kw.items() if k != "workers"}, r.distinct, r.generated, r.wall_s))
 
-    # ---- 4. long histories ------------------------------------------------------------------------------------------
+    # ---- 4. long histories (with a configured timeout: hook; and without one) -------------------------------------
     svcs = R.SERVICE_TABLES["S_q1"]
-    longs = []
-    for fut in f_gen:
-        r, lb = fut.result()
-        longs += [[dict(s["e"], pn=s["pn"]) for s in b] for b in lb]
-    t1 = time.time()
-    res = C.hook_replay(ctx, longs, svcs, True, nproc=cfg["nproc"], tag="long", per_proc=1, live_every=2)
-    t2 = time.time()
-    vals = C.validate_many(ctx, res, nthreads=cfg["nproc"])
-    t3 = time.time()
-    plain = [[{k: v for k, v in e.items() if k != "pn"} for e in h] for h in longs]
-    lobs = dict(obs, max_inuse=0, announcements=0, replacements=0)
-    for x, v in zip(res, vals):
-        rep.hook("long history (BookLong, %d ids)" % lg["ids"], x, v, plain, None, svcs, True, table="S_q1")
-        _observe(x["trace"], obs)
-    steps = sum(x["steps"] for x in res)
-    ctx.cov["evaluations"] += steps
-    ctx.cov["traces_validated_against_impl"] += len(longs)
-    for h in plain:
-        distinct.add(hash(json.dumps(h, sort_keys=True)))
-    ctx.cov["long_histories"] = {"count": len(longs), "steps": steps, "longest": max(len(h) for h in longs),
-                                 "announcements": sum(1 for h in longs for e in h if e["e"] == "C"),
-                                 "ids": lg["ids"]}
-    ctx.sample({"long": C.ev_sig(plain[0][:40]) + " ..."})
-    ctx.note("long histories: %d histories, %d steps (longest %d, %d announcements in all) replayed (%.0fs), validated by TLC "
-             "(%.0fs)" % (len(longs), steps, max(len(h) for h in longs), ctx.cov["long_histories"]["announcements"],
-                          t2 - t1, t3 - t2))
-    _unlink(res)
+    lh = {"count": 0, "steps": 0, "longest": 0, "announcements": 0, "ids": lg["ids"], "without_timeout": 0}
+    for timeout_on, futs in ((True, f_gen), (False, f_gen_nt)):
+        longs = []
+        for fut in futs:
+            r, lb = fut.result()
+            longs += [[dict(s["e"], pn=s["pn"]) for s in b] for b in lb]
+        if not longs:
+            continue
+        t1 = time.time()
+        res = C.hook_replay(ctx, longs, svcs, timeout_on, nproc=cfg["nproc"], tag="long%d" % timeout_on, per_proc=1,
+                            live_every=2)
+        t2 = time.time()
+        vals = C.validate_many(ctx, res, nthreads=cfg["nproc"])
+        t3 = time.time()
+        plain = [[{k: v for k, v in e.items() if k != "pn"} for e in h] for h in longs]
+        for x, v in zip(res, vals):
+            rep.hook("long history (BookLong, %d ids%s)" % (lg["ids"], "" if timeout_on else ", no timeout"), x, v, plain, None,
+                     svcs, timeout_on, table="S_q1")
+            _observe(x["trace"], obs)
+        steps = sum(x["steps"] for x in res)
+        ctx.cov["evaluations"] += steps
+        ctx.cov["traces_validated_against_impl"] += len(longs)
+        for h in plain:
+            distinct.add(hash(json.dumps(h, sort_keys=True)))
+        for h in longs:
+            prev = 0
+            for e in h:
+                if e["e"] == "C" and e["pn"] == prev:
+                    model["replacements"] += 1
+                prev = e["pn"]
+        lh["count"] += len(longs)
+        lh["steps"] += steps
+        lh["longest"] = max(lh["longest"], max(len(h) for h in longs))
+        lh["announcements"] += sum(1 for h in longs for e in h if e["e"] == "C")
+        lh["without_timeout"] += 0 if timeout_on else len(longs)
+        if timeout_on:
+            ctx.sample({"long": C.ev_sig(plain[0][:40]) + " ..."})
+        ctx.note("long histories%s: %d histories, %d steps (longest %d) replayed (%.0fs), validated by TLC (%.0fs)"
+                 % ("" if timeout_on else " [no timeout]", len(longs), steps, max(len(h) for h in longs), t2 - t1, t3 - t2))
+        _unlink(res)
+    ctx.cov["long_histories"] = lh
 
     # ---- 5. real timers --------------------------------------------------------------------------------------------
     rt_thread.join()
